@@ -57,8 +57,10 @@ type OpRec struct {
 	EtxBefore   int
 	HadSuicided bool
 	ReadOnly    bool
-	Aux         []byte // ETX: the access-list window of memory (if small enough to copy)
+	Aux         []byte // ETX: the access-list window of memory; lockup call: the input bytes
 	AuxLen      uint64
+	// lockup precompile calls: the ledger entry the call names, before and after
+	LedgerBefore, LedgerAfter *big.Int
 	// filled at the next step of the same frame
 	Done       bool
 	StackAfter int
@@ -224,8 +226,40 @@ func (t *TracerMon) CaptureState(env *vm.EVM, pc uint64, op vm.OpCode, gas, cost
 			rec.Aux = common.CopyBytes(scope.Memory.Data()[off.Uint64() : off.Uint64()+sz.Uint64()])
 		}
 	}
+	if op == vm.CALL && addrEq(&rec.Args[1], Lockup) {
+		off, sz := rec.Args[3], rec.Args[4]
+		if off.IsUint64() && sz.IsUint64() && (sz.Uint64() == 53 || sz.Uint64() == 60) && off.Uint64()+sz.Uint64() <= uint64(scope.Memory.Len()) {
+			rec.Aux = common.CopyBytes(scope.Memory.Data()[off.Uint64() : off.Uint64()+sz.Uint64()])
+			rec.LedgerBefore = t.ledgerEntry(rec)
+		}
+	}
 	t.Ops = append(t.Ops, rec)
 	f.pending = rec
+}
+
+func addrEq(x *uint256.Int, a common.Address) bool {
+	b := x.Bytes20()
+	return string(b[:]) == string(a.Bytes())
+}
+
+// ledgerEntry reads what a lockup-precompile call is about: the coinbase-lockup
+// record balance (claim) or the caller's wrapped-Qi balance (unwrap), as the EVM
+// sees it through its batch / state.
+func (t *TracerMon) ledgerEntry(rec *OpRec) *big.Int {
+	switch len(rec.Aux) {
+	case 53:
+		miner := common.BytesToAddress(rec.Aux[0:20], Loc)
+		epoch := uint32(rec.Aux[41])<<24 | uint32(rec.Aux[42])<<16 | uint32(rec.Aux[43])<<8 | uint32(rec.Aux[44])
+		bal, _, _, _ := rawdb.ReadCoinbaseLockup(t.ex.DB, t.ex.Batch, rec.Self, miner, rec.Aux[40], epoch)
+		return new(big.Int).Set(bal)
+	case 60:
+		li, ok1 := internal(Lockup)
+		oi, ok2 := internal(rec.Self)
+		if ok1 && ok2 {
+			return t.ex.State.GetState(li, common.BytesToHash(oi[:])).Big()
+		}
+	}
+	return nil
 }
 
 // Close marks every still-open frame as ended (called when execution is over).
@@ -245,6 +279,9 @@ func (t *TracerMon) finish(env *vm.EVM, f *frame, scope *vm.ScopeContext) {
 	rec.EtxAfter, last = etxLen(env)
 	if rec.EtxAfter > rec.EtxBefore {
 		rec.NewEtx = last
+	}
+	if rec.LedgerBefore != nil {
+		rec.LedgerAfter = t.ledgerEntry(rec)
 	}
 }
 
